@@ -1,1 +1,36 @@
-fn main() {}
+//! Checker binary for the properties anchored in the on-chain programs (store, treasury,
+//! timelock, competition, liquidity-provider) and in the SDK's view of their accounts.
+mod c15;
+mod cfgkeys;
+mod defaults;
+mod svm;
+
+use mc_core::{Cli, Report};
+
+fn main() {
+    let cli = Cli::parse();
+    mc_core::quiet_panics();
+    // programs print through msg!/println!; keep our own channel
+    let _saved = mc_core::silence_stdout();
+    svm::install();
+    let rep: Report = match cli.property.as_str() {
+        "SELFTEST" => match svm::selftest() {
+            Ok(()) => {
+                eprintln!("svm-lite selftest ok");
+                std::process::exit(0)
+            }
+            Err(e) => {
+                eprintln!("svm-lite selftest FAILED: {e}");
+                std::process::exit(2)
+            }
+        },
+        "C15" => c15::run(&cli),
+        "C16" => cfgkeys::run_c16(&cli),
+        "C17" => cfgkeys::run_c17(&cli),
+        other => {
+            eprintln!("unknown property {other}");
+            std::process::exit(2)
+        }
+    };
+    std::process::exit(rep.finish(&cli));
+}
